@@ -26,7 +26,9 @@ Shapes == <<
   \* 7 array of objects with the same member names
   O([k \in {"r"} |-> A(<<O([j \in {"a"} |-> V("r/0/a")]), O([j \in {"a"} |-> V("r/1/a")]), O([j \in {"a"} |-> A(<<V("r/2/a/0")>>)])>>)]),
   \* 8 depth 4 chain alternating containers
-  O([k \in {"c"} |-> A(<<O([j \in {"d"} |-> A(<<O([i \in {"e"} |-> V("c/0/d/0/e")])>>)])>>)])
+  O([k \in {"c"} |-> A(<<O([j \in {"d"} |-> A(<<O([i \in {"e"} |-> V("c/0/d/0/e")])>>)])>>)]),
+  \* 9 the hash-algorithm marker's name below the top level, where it is an ordinary member (in an object, and in an object inside an array)
+  O([k \in {"q", "ar"} |-> IF k = "q" THEN O([j \in {"_sd_alg", "w"} |-> V("q/" \o j)]) ELSE A(<<O([j \in {"_sd_alg"} |-> V("ar/0/_sd_alg")])>>)])
 >>
 Universe3 == {Root(Shapes[i], "i1") : i \in ShapeIdx}
 StratsS(U) == {NoneS, TopS, AllS, CustomS(UserPaths(U))} \cup {CustomS({p}) : p \in UserPaths(U)}
